@@ -565,6 +565,9 @@ func (t *fnTrans) guardField(owner, fname string, ownerT types.Type, base string
 		acc = "write"
 	}
 	disc := acc + ":" + sa.name + "." + fname
+	if write && fa.writer != "" && t.fn.Name() != fa.writer && !strings.HasPrefix(t.fn.Name(), fa.writer+"$") {
+		t.oblige("guard.writer", disc, pos, "false", "field declared single_writer "+fa.writer+" is written elsewhere")
+	}
 	switch fa.kind {
 	case "guarded":
 		k, ok := t.lockKeyFrom(ownerT, base, fa.lock)
